@@ -2339,10 +2339,13 @@ def rule_record_holds_fields(model: Model, rule_id: str = 'C16-R9') -> RuleResul
     for c in adds:
         r.instances += 1
         gov = _site_conditions(model, sa, c)
-        guards = [text for (_g, text, truth) in gov if truth and re.search(r'fields|field_names|__pane_info__', text)]
+        guards = [text for (_g, text, truth) in gov if 'frozen' not in text and
+                  (re.search(r'fields|field_names', text) or re.search(rf'\$?{name_p}\b', text))]
         # syntactic: an enclosing `if` whose test mentions the fields of the class record
         for anc in ancestors(c):
-            if isinstance(anc, ast.If) and re.search(r'fields|field_names', unparse(anc.test)) and any(x is c for s_ in anc.body for x in ast.walk(s_)):
+            if isinstance(anc, ast.If) and (re.search(r'fields|field_names', unparse(anc.test))
+                                            or any(isinstance(nm, ast.Name) and nm.id == name_p for nm in ast.walk(anc.test))) \
+                    and any(x is c for s_ in anc.body for x in ast.walk(s_)):
                 guards.append(unparse(anc.test)[:80])
         r.sample({'record update': unparse(c), 'only for fields': guards})
         if guards:
@@ -2382,10 +2385,32 @@ def rule_internal_layout_writes_tag_key(model: Model, rule_id: str = 'C12-R9') -
     me = f.params[0]
     r.instances += 1
     hits = []
+    cfg = cfg_of(model, f)
+    nz = Normalizer(model, f, cfg)
+
+    def is_tag_key(k: t.Optional[ast.AST], at: ast.AST) -> bool:
+        if k is None:
+            return False
+        if unparse(k) == f'{me}.tag':
+            return True
+        n_ = cfg.node_of(at)
+        try:
+            return n_ is not None and nz.expr(k, n_) == f'{me}.tag'
+        except AnalysisError:
+            return False
+
     for d in ast.walk(f.node):
-        if not isinstance(d, ast.Dict):
-            continue
-        if not any(k is not None and unparse(k) == f'{me}.tag' for k in d.keys):
+        keyed = False
+        if isinstance(d, ast.Dict):
+            keyed = any(is_tag_key(k, d) for k in d.keys)
+        elif isinstance(d, ast.Assign) and len(d.targets) == 1 and isinstance(d.targets[0], ast.Subscript):
+            keyed = is_tag_key(d.targets[0].slice, d.value)
+            d = d.value
+        elif isinstance(d, ast.Call) and isinstance(d.func, ast.Attribute) and d.func.attr == 'setdefault' and d.args:
+            keyed = is_tag_key(d.args[0], d)
+        elif isinstance(d, ast.DictComp):
+            keyed = False
+        if not keyed:
             continue
         gov = _site_conditions(model, f, d)
         internal = any((truth and re.fullmatch(rf'(False is {me}\.external|{me}\.external is False)', text))
